@@ -73,6 +73,15 @@ def gen_blocks(rw, n):
         if r < 0.3:
             out.append(bookkeeping_bait(rw))
             continue
+        if r < 0.45:
+            # a nested rule pattern whose inner term survives (or is used twice): the rule fires, but removes less than it books
+            g = B.Gen(rw, {"pseudo": False, "bait": 0})
+            g.h = 3
+            nested = [t for t in B.BAIT if any(a[0] == "op" for a in t[2])]
+            t = g.instantiate(rw.choice(nested), 3, 1)
+            g.compile(("keepinner", t) if rw.random() < 0.7 else ("twice", rw.choice(["ADD", "LT"]), t))
+            out.append(g.items + rw.choice([[], [("SWAP1", None)], [("POP", None)]]))
+            continue
         r = rw.random()
         if r < 0.25:
             b = corpus.sample_blocks(rw, 1, max_len=12)[0]
